@@ -420,6 +420,7 @@ typedef struct { _Bool has; str_t v; } opt_str_t;
 /* tl::expected<std::string, ada::errors>: has == has_value() */
 typedef struct { _Bool has; str_t v; } result_str_t_t;
 typedef struct { _Bool has; uint16_t v; } opt_uint16_t;
+typedef opt_uint16_t opt_unsigned_short_t;   /* std::optional<uint16_t> spelled through its desugared type */
 typedef struct { _Bool has; uint32_t v; } opt_uint32_t;
 typedef struct { size_t first; _Bool second; } pair_size_t_Bool_t;
 typedef struct { str_t first; str_t second; } pair_str_t_str_t_t;
